@@ -150,19 +150,18 @@ pub fn object_constructor(
             let obj = interp.create_object(&guard);
             obj.borrow_mut().prototype = Some(interp.string_prototype.clone());
             obj.borrow_mut().exotic = ExoticObject::StringObj(s.clone());
-            // Also set length property for string wrappers
-            let len = s.len();
+            // length: the number of characters; own, read-only, not enumerable
+            let len = s.as_str().chars().count();
             let length_key = PropertyKey::String(interp.intern("length"));
-            obj.borrow_mut()
-                .set_property(length_key, JsValue::Number(len as f64));
+            obj.borrow_mut().define_property(
+                length_key,
+                Property::with_attributes(JsValue::Number(len as f64), false, false, false),
+            );
             Ok(Guarded::with_guard(JsValue::Object(obj), guard))
         }
         JsValue::Symbol(_) => {
-            // Symbols cannot be wrapped with Object() - this should throw TypeError in strict mode
-            // but for now we return an ordinary object
-            let guard = interp.heap.create_guard();
-            let obj = interp.create_object(&guard);
-            Ok(Guarded::with_guard(JsValue::Object(obj), guard))
+            // A Symbol wrapper object (it unwraps to the symbol again)
+            interp.to_object(value.clone())
         }
     }
 }
